@@ -46,6 +46,9 @@ class DirectWorld(World):
                     t_cur = np.asarray(op["t"], dtype=dtype)
                     y_cur = np.asarray(op["y"], dtype=np.float64).astype(dtype).reshape(self.problem.shape)
                 h = np.asarray(op["h"], dtype=dtype)
+                if op.get("h_div"):
+                    # a step size that exists only in the state's precision (h/3 is not a float64 number in extended precision)
+                    h = np.asarray(h / dtype.type(op["h_div"]), dtype=dtype)
                 n0 = len(self.icalls)
                 rec = {"op": i, "t": _c(t_cur), "y": _c(y_cur), "h": _c(h), "exc": None, "contiguous": op.get("from") != "state"}
                 try:
@@ -99,7 +102,7 @@ class C02(Prop):
         rp = gen.sub(seed, "problem")
         fams = r.choice([["explicit_fixed"], ["explicit_adaptive"], ["explicit_adaptive"], ["splitting"], ["implicit_fixed", "implicit_adaptive"]])
         method = gen.pick_method(r, fams)
-        dtype = r.choice(["float64"] * 5 + ["float32", "longdouble"])
+        dtype = r.choice(["float64"] * 4 + ["float32", "longdouble", "longdouble"])
         want = {"separable"} if gen.method_family(method) == "splitting" else None
         prob = gen.gen_problem(rp, dtype=dtype, want=want)
         N = int(np.prod(prob["shape"]))
@@ -122,6 +125,10 @@ class C02(Prop):
                "system": {"t0": t0, "tf": t0 + 1.0, "dt": 0.1, "method": method, "rtol": rtol, "atol": atol, "dense": False, "jac": "none",
                           "constants": {"k": r.choice([1.0, 1.0, gen.rnd(r, 0.5, 1.5, 3)])}},
                "knobs": {}, "events": [], "ops": ops, "faults": []}
+        rd = gen.sub(seed, "hdiv")
+        for op in ops:
+            if rd.random() < 0.4:
+                op["h_div"] = rd.choice([3, 7, 10])
         rf = gen.sub(seed, "faults")
         if rf.random() < 0.35:
             scn["faults"].append({"op": rf.randrange(len(ops)), "seam": "rhs", "at": rf.randrange(1, 30), "kind": "raise"})
@@ -154,7 +161,7 @@ class C02(Prop):
             tag = "contiguous" if rec["contiguous"] else "restart from an unrelated state"
             if c["kind"] == "split":
                 dy_ref, scale = ref_split_step(integ, f, t0, y0, h)
-                bound = 64 * integ.tableau_intermediate.shape[0] * eps * max(scale, 1e-300)
+                bound = 4 * integ.tableau_intermediate.shape[0] * eps * max(scale, 1e-300)
                 err = float(np.max(np.abs(dy_ref - rec["dState"])))
                 if err > bound:
                     V.append({"property": P, "oracle": "C02.split_step_formula", "op": rec["op"], "detail": "direct call %d (%s, h=%r): |dy - composition| = %.3e > %.3e" % (rec["op"], tag, float(h), err, bound)})
@@ -162,7 +169,8 @@ class C02(Prop):
                 dy_ref, K, scale = ref_rk_step(integ, f, t0, y0, h)
                 L = w.problem.lipschitz(**consts)
                 amp = (1.0 + abs(float(h)) * L) ** min(integ.stages, 8)
-                bound = 64 * integ.stages * eps * max(scale, 1e-300) * amp
+                s_dy, s_arg = ref_rk_step.last_scales
+                bound = 4 * integ.stages * eps * max(s_dy + abs(float(h)) * L * s_arg * amp, 1e-300)
                 err = float(np.max(np.abs(dy_ref - rec["dState"])))
                 res["ratios"]["C02.rk_step_formula_direct"] = max(res["ratios"].get("C02.rk_step_formula_direct", 0), err / bound)
                 if err > bound:
